@@ -98,11 +98,22 @@ def check_case(rep, drv, case, rng=None):
     if not (full[0] == 'ok' and full[2] == b''):
         return
     schemaless_ok = not c06.sigs_needs_schema(case.t)
+    # history: the lenient decoders have seen the same type objects (and the mutants' BER readings) first - what the strict
+    # decoders enforce afterwards must not depend on that
+    try:
+        codec.DEC['ber'].decode(data, asn1Spec=case.schema)
+        codec.DEC['ber'].decode(data)
+    except Exception:  # noqa
+        pass
     try:
         rws = list(rewrites(case, data))
     except wire.WireError:
         return
     for kind, mutant, depth in rws:
+        try:
+            codec.DEC['ber'].decode(mutant, asn1Spec=case.schema)
+        except Exception:  # noqa
+            pass
         rep.count('rewrite=' + kind.split('-')[0])
         rep.count('depth=%d' % min(depth, 4))
         decs = ['der'] + (['cer'] if kind.startswith('boolean') else [])
@@ -251,10 +262,51 @@ def schemaless(dec, data):
         return ('err', codec.classify(e))
 
 
+def lenient_decoders_first(rep):
+    """history before anything strict runs in this process: the BER decoder, with a guiding type, meets every string-like
+    class, BOOLEAN and the containers - primitive and segmented forms, TRUE as 01 - so that whatever the decoders remember
+    (per class, per type id, per tag) is filled by the lenient codec first"""
+    import importlib
+    from pyasn1.type import univ, namedtype
+    from pyasn1.codec.ber import decoder as ber_decoder, encoder as ber_encoder
+    classes = [univ.Boolean, univ.BitString, univ.OctetString]
+    for modname in ('char', 'useful'):
+        mod = importlib.import_module('pyasn1.type.' + modname)
+        for nm in sorted(vars(mod)):
+            c = getattr(mod, nm)
+            if isinstance(c, type) and issubclass(c, univ.OctetString) and c not in classes and getattr(c, 'tagSet', None):
+                classes.append(c)
+    n = 0
+    for c in classes:
+        try:
+            if c is univ.Boolean:
+                forms = [bytes.fromhex('010101'), bytes.fromhex('0101ff')]
+                spec = c()
+            elif c is univ.BitString:
+                forms = [bytes.fromhex('030204a0'), bytes.fromhex('2380030204a00000')]
+                spec = c()
+            else:
+                spec = c()
+                base = bytes(ber_encoder.encode(c('12'.encode() if c is univ.OctetString else '12')))
+                forms = [base, bytes([base[0] | 0x20, 0x80, 0x04, 0x01, 0x31, 0x04, 0x01, 0x32, 0, 0])]
+            for f in forms:
+                for wrap in (spec, univ.Sequence(componentType=namedtype.NamedTypes(namedtype.NamedType('x', spec)))):
+                    data = f if wrap is spec else bytes([0x30, len(f)]) + f
+                    try:
+                        ber_decoder.decode(data, asn1Spec=wrap)
+                        n += 1
+                    except Exception:  # noqa
+                        pass
+        except Exception:  # noqa
+            continue
+    rep.count('lenient-history-decodes', n)
+
+
 def run(rep, tier, seed):
     common.prove(rep)
     rng = common.rng_for(seed, 'C15')
     drv = common.Driver()
+    lenient_decoders_first(rep)
     # the strict BOOLEAN decoder is translated from the source on every run (gen/py2lean.py -> GenK.cerBool;
     # Props/C15.source_strict_boolean); the translation is run against the real method here
     from harness import kernels
